@@ -240,7 +240,7 @@ Definition def_guard (p : fcprog) (d : fdef) : bool :=
   frag p (fdbody d) && ws (compile_ctx (fdctx d)) (fdbody d)
   && (if String.eqb (fdname d) "main"
       then data_ty p (fterm_type (fdbody d)) && ctx_data p (fdctx d)
-           (* when main is called (fix <commitmain>: the entry point passes its parameters on BY NAME): distinct parameters *)
+           (* when main is called (fix f929eb7: the entry point passes its parameters on BY NAME): distinct parameters *)
            && (negb (calls_main_prog p) || nodup_str (fvars (fdctx d)))
       else true)
   && kd p (fdbody d) && Bool.eqb (tkind p (fdbody d)) (f_is_codata p (fdret d)).
